@@ -27,7 +27,7 @@ const ruleC05 = "generated programs of 4-20 write operations (incl. parameterise
 
 type c05Case struct {
 	Backend  string  `json:"backend"`
-	Ops      []cs.Op `json:"ops"` // literal ids (geninsert allowed)
+	Ops      []cs.Op `json:"ops"`  // literal ids (geninsert allowed)
 	Mode     string  `json:"mode"` // selfkill | strace | random | none
 	KillOp   int     `json:"killop"`
 	KillCall int64   `json:"killcall"`
@@ -39,13 +39,13 @@ type c05Case struct {
 
 func c05Profile() *sm.Profile {
 	return &sm.Profile{
-		Name:        "c05",
-		Colls:       []string{"A", "B"},
-		IndexFields: []string{"x", "y", "u"},
-		Doc:         gen.DocCfg{Val: gen.ValCfg{MaxDepth: 1}, PAbsent: 4},
-		IdPool:      48,
-		MaxDocs:     30,
-		Crit:        gen.CritEnv{Val: gen.ValCfg{MaxDepth: 0}, MaxDepth: 2, NoFunc: true, Fields: []string{"x", "y", "u", "_id"}},
+		Name:         "c05",
+		Colls:        []string{"A", "B"},
+		IndexFields:  []string{"x", "y", "u"},
+		Doc:          gen.DocCfg{Val: gen.ValCfg{MaxDepth: 1}, PAbsent: 4},
+		IdPool:       48,
+		MaxDocs:      30,
+		Crit:         gen.CritEnv{Val: gen.ValCfg{MaxDepth: 0}, MaxDepth: 2, NoFunc: true, Fields: []string{"x", "y", "u", "_id"}},
 		NoWindowBulk: false,
 		Weights: []sm.W{{Kind: "createcoll", Weight: 3}, {Kind: "insert", Weight: 12}, {Kind: "save", Weight: 2}, {Kind: "replace", Weight: 3},
 			{Kind: "updatebyid", Weight: 5}, {Kind: "update", Weight: 6}, {Kind: "updatefunc", Weight: 6}, {Kind: "delete", Weight: 4},
@@ -63,8 +63,14 @@ func workerBin() string {
 
 // reference runs the program in-process (bbolt scratch) and returns the model after every
 // prefix, the resolved operations and the number of fallible store calls of each one.
-func c05Reference(ops []cs.Op) (snaps []*model.DB, resolved []cs.Op, calls []int64, sets [][]int, fail *sm.Fail) {
-	s, err := sm.NewSession("C05", "c05ref", run.Bbolt)
+func c05Reference(ops []cs.Op, target string) (snaps []*model.DB, resolved []cs.Op, calls []int64, sets [][]int, fail *sm.Fail) {
+	ref := run.Bbolt
+	if target == run.BadgerDiskSmall {
+		// same transaction budget as the backend under test, so that an oversized operation is
+		// refused (a legal no-op failure) in the reference run too
+		ref = run.BadgerMemSmall
+	}
+	s, err := sm.NewSession("C05", "c05ref", ref)
 	if err != nil {
 		return nil, nil, nil, nil, &sm.Fail{Property: "C05", Clause: "harness", Detail: err.Error()}
 	}
@@ -144,7 +150,7 @@ func c05Run(c *c05Case) (*sm.Fail, *c05Result) {
 	bad := func(clause, f string, a ...interface{}) *sm.Fail {
 		return &sm.Fail{Property: "C05", Clause: clause, Detail: fmt.Sprintf(f, a...)}
 	}
-	snaps, resolved, _, _, rf := c05Reference(c.Ops)
+	snaps, resolved, _, _, rf := c05Reference(c.Ops, c.Backend)
 	if rf != nil {
 		return rf, nil
 	}
@@ -287,7 +293,7 @@ func countSyscalls(c *c05Case, syscallName string) int {
 	defer os.RemoveAll(dir)
 	dbdir := filepath.Join(dir, "db")
 	os.MkdirAll(dbdir, 0o755)
-	_, resolved, _, _, rf := c05Reference(c.Ops)
+	_, resolved, _, _, rf := c05Reference(c.Ops, c.Backend)
 	if rf != nil {
 		return 0
 	}
@@ -338,7 +344,7 @@ func TestC05(t *testing.T) {
 	t.Run("crash", func(t *testing.T) {
 		maxPoints := ev.Scale(24, 400)
 		check(t, "C05", cases(12, 120), 0, func(rt *rapid.T) {
-			backend := rapid.SampledFrom([]string{run.Bbolt, run.Bbolt, run.BadgerDisk}).Draw(rt, "backend")
+			backend := rapid.SampledFrom([]string{run.Bbolt, run.Bbolt, run.BadgerDisk, run.BadgerDiskSmall}).Draw(rt, "backend")
 			p := c05Profile()
 			// draw the program against a scratch session (literal ids only)
 			s, err := sm.NewSession("C05", "c05gen", run.Bbolt)
@@ -353,7 +359,17 @@ func TestC05(t *testing.T) {
 			}
 			p.Seed(rt, s, do)
 			nops := rapid.IntRange(3, 16).Draw(rt, "nops")
+			oversized := -1
+			if backend == run.BadgerDiskSmall {
+				// one batch that exceeds the small badger transaction budget: it must be refused as a
+				// whole, and a crash inside it must not leave a part of it behind
+				oversized = rapid.IntRange(0, nops-1).Draw(rt, "oversized-at")
+			}
 			for i := 0; i < nops; i++ {
+				if i == oversized && s.M.Colls["A"] != nil {
+					do(cs.Op{Kind: "geninsert", Coll: "A", Gen: &cs.GenSpec{First: 500000, N: 2000, Pad: 600, Mul: 1, Mod: 50}})
+					continue
+				}
 				if rapid.IntRange(0, 5).Draw(rt, "bigbatch") == 0 && s.M.Colls["A"] != nil {
 					g := &cs.GenSpec{First: 1000 + 3000*i, N: rapid.SampledFrom([]int{50, 300, 2000}).Draw(rt, "bign"), Pad: rapid.SampledFrom([]int{0, 100, 600}).Draw(rt, "bigpad"), Mul: 1, Mod: 50}
 					do(cs.Op{Kind: "geninsert", Coll: "A", Gen: g})
@@ -361,9 +377,17 @@ func TestC05(t *testing.T) {
 				}
 				do(p.Draw(rt, s))
 			}
+			// often end with dropping a populated, indexed collection: a multi-step operation whose
+			// intermediate states (documents gone, catalog entry still there) must never survive a crash
+			if c := s.M.Colls["A"]; c != nil && len(c.Docs) > 0 && rapid.Bool().Draw(rt, "final-drop") {
+				if len(c.Indexes) == 0 {
+					do(cs.Op{Kind: "createindex", Coll: "A", Field: "u"})
+				}
+				do(cs.Op{Kind: "dropcoll", Coll: "A"})
+			}
 			ops := append([]cs.Op{}, s.Ops...)
 			s.Close()
-			_, _, calls, traces, rf := c05Reference(ops)
+			_, _, calls, traces, rf := c05Reference(ops, backend)
 			if rf != nil {
 				violate(rt, "C05", "c05reopen", &sm.Program{Property: "C05", Profile: "c05reopen", Backend: run.Bbolt, Ops: ops, Fail: rf}, rf)
 			}
@@ -384,13 +408,33 @@ func TestC05(t *testing.T) {
 			}
 			chosen := points
 			if len(points) > maxPoints {
+				// stratified by operation (a uniform draw over all calls would be dominated by the large
+				// batches): pick an operation, then one of its calls
 				chosen = nil
-				seen := map[int]bool{}
+				byOp := map[int][]point{}
+				for _, pt := range points {
+					byOp[pt.op] = append(byOp[pt.op], pt)
+				}
+				seen := map[point]bool{}
 				for j := 0; j < maxPoints; j++ {
-					idx := rapid.IntRange(0, len(points)-1).Draw(rt, "point")
-					if !seen[idx] {
-						seen[idx] = true
-						chosen = append(chosen, points[idx])
+					oi := rapid.IntRange(0, len(ops)-1).Draw(rt, "point-op")
+					if rapid.IntRange(0, 3).Draw(rt, "point-late") == 0 {
+						oi = len(ops) - 1 - rapid.IntRange(0, 1).Draw(rt, "point-last") // the last operations (the final drop)
+						if oi < 0 {
+							oi = 0
+						}
+					}
+					cand := byOp[oi]
+					if len(cand) == 0 {
+						continue
+					}
+					pt := cand[rapid.IntRange(0, len(cand)-1).Draw(rt, "point-call")]
+					if rapid.IntRange(0, 2).Draw(rt, "point-tail") == 0 {
+						pt = cand[len(cand)-1-rapid.IntRange(0, min(3, len(cand)-1)).Draw(rt, "point-tailk")] // near the end: commit and what precedes it
+					}
+					if !seen[pt] {
+						seen[pt] = true
+						chosen = append(chosen, pt)
 					}
 				}
 			}
